@@ -12,7 +12,7 @@ RULE = ("each logical call (engine, sequences[, query], k, mode) is executed for
         "coordinates; every invalid-argument class must raise on every engine; non-trivial = expected set non-empty")
 ASSUMPTIONS = ["two-collection calls vary one container at a time (star) plus both-permuted, not the full 7x7 product",
                "an invalid argument is 'rejected' when any exception is raised"]
-REQUIRED_CLASSES = {"all": ["series-permuted-labels", "series-shifted-labels", "coo-output", "ndarray-output", "invalid-argument", "non-square-matrix", "non-integer-distances"]}
+REQUIRED_CLASSES = {"all": ["series-permuted-labels", "series-shifted-labels", "coo-output", "ndarray-output", "invalid-argument", "non-square-matrix", "non-integer-distances", "asymmetric-result"]}
 MIN_OUTCOMES = 10
 
 CONTAINERS = ("list", "tuple", "ndarray", "series", "series_shift", "series_perm", "series_str")
@@ -155,6 +155,10 @@ def spaces(tier):
         for seqs in E.lists(U2, 3 if q else 4):
             yield ("self", seqs)
 
+    def gen_maxret():
+        for seqs in E.lists(U2, 4, minlen=3):
+            yield ("maxret", seqs)
+
     def gen_two():
         if q:
             for ref in E.lists(U2, 2):
@@ -180,6 +184,7 @@ def spaces(tier):
     return [
         Space("self-search-formats-x-containers", gen_self, "Lists(U(AC,2),3|4) x k in 1..2 x {levenshtein, hamming, callable with non-integer values} x 4 engines x 3 output types x 7 containers (hash_based k=1 only)", shards=64),
         Space("two-collection-formats-x-containers", gen_two, "ref in Lists(U(AC,2),2[,3]) x query in Lists(U(AC,1|2),2) x k in 1..2 x 3 distance modes x 4 engines x 3 outputs x container star (13 combinations + both permuted)", shards=64),
+        Space("asymmetric-results-in-matrix-form", gen_maxret, "Lists(U(AC,2),4), N>=3 x kdtree max_returns in 1..2 x k in 1..2 x {levenshtein, hamming} x {coo_matrix, ndarray} x {list, Series with permuted labels}: matrix == matrix of the triplets the same call reports", shards=32),
         Space("invalid-arguments", gen_invalid, "%d invalid-argument classes x 5 engines x 3 containers" % len(INVALID)),
     ]
 
@@ -200,6 +205,33 @@ def check_case(case, acc):
                     for out in OUTPUTS:
                         for cont in (CONTAINERS if mode != "halflev" else ("list", "ndarray", "series_perm", "series_shift")):
                             _one_self(acc, eng, seqs, k, mode, out, cont, expected)
+    elif kind == "maxret":
+        # kdtree with max_returns gives an asymmetric neighbour list: matrix outputs must hold d at [r, q] of exactly the triplets
+        # the same call reports (row = reported neighbour r, column = query q)
+        import pyrepseq
+        seqs = list(case[1])
+        n = len(seqs)
+        for m in (1, 2):
+            for k in (1, 2):
+                for mode in ("lev", "hamming"):
+                    kw = dict(max_returns=m)
+                    if mode == "hamming":
+                        kw["custom_distance"] = "hamming"
+                    trip = acc.call(pyrepseq.kdtree, seqs, k, **kw)
+                    if raised(trip):
+                        acc.fail("kdtree/%s/max_returns/raised" % mode, case, "triplets", trip)
+                        return
+                    tset = {(int(a), int(b), d) for a, b, d in trip}
+                    if {(b, a) for a, b, d in tset} != {(a, b) for a, b, d in tset}:
+                        acc.cls("asymmetric-result")
+                    for out in ("coo_matrix", "ndarray"):
+                        for cont in ("list", "series_perm"):
+                            res = acc.call(pyrepseq.kdtree, box(seqs, cont), k, output_type=out, **kw)
+                            bad = check_output(res, out, tset, n, n, True)
+                            if bad is not None:
+                                acc.fail("kdtree/%s/max_returns/output-%s/%s" % (mode, out, bad[0]), ("maxret", case[1]), expected_matrix(tset, n, n), bad[1], note="max_returns=%d k=%d container=%s" % (m, k, cont))
+                                return
+                            acc.ok(("mr", m, k, mode, out, tuple(sorted(tset))), nontrivial=bool(tset))
     elif kind == "self1":
         _, eng, seqs, k, mode, out, cont = case
         _one_self(acc, eng, seqs, k, mode, out, cont, expected_for(seqs, k, mode))
